@@ -13,8 +13,14 @@ package main
 //     Coins / Grams, MsgAddress, Cell in tail position, ^Cell;
 //   - (Maybe T), (Maybe ^T), (Either T ^T), (Either T U), ^T, ^[ fields ], (HashmapE n T), (HashmapE n ^T)
 //     where T, U carry no tag of their own (the generator keeps one tag per field);
-//   - one constructor: optional #hex / $bin prefix (becomes a Magic field); several
-//     constructors: prefix-free #/$ prefixes;
+//   - one constructor: optional #hex / $bin prefix (becomes a Magic field) or the explicit empty
+//     prefix #_ / $_; several constructors: prefix-free #/$ prefixes;
+//   - every form of field definition of the grammar (lexer.go): name:T and _:T; unnamed ^T and
+//     ^[ ... ] (Go field Field<i>; the only place the ^ tag of such a field is written is the
+//     fallback in fieldDefinitionsToStruct), nested; one unnamed paren expression without a tag
+//     of its own (Go field Value); one unnamed declared type per type (Go field named like the
+//     type); inline name:[ ... ]; implicit {n:#} {X:Type} and constraints { f <= c } (not
+//     serialised); the builtin # (uint32), True, MsgAddressInt, CurrencyCollection;
 //   - every value fits a cell (1023 bits, 4 references): the schema semantics
 //     has no capacity, the codec has.
 
@@ -36,10 +42,19 @@ type bT struct {
 	name   string
 }
 
+// one entry of a field list, in one of the forms of tlb/parser's FieldDefinition:
+//
+//	name:T  (NamedField; name may be "_")        unnamed ^T / ^[ ... ] (CellRef)
+//	unnamed ( ... )  (the paren form: Go field Value)   unnamed declared type name (TypeRef)
+//	{ ... }  (Implicit: not serialised, t == nil)
 type bF struct {
-	name string
-	t    *bT
+	name     string
+	t        *bT
+	unnamed  bool
+	implicit string
 }
+
+func nf(name string, t *bT) bF { return bF{name: name, t: t} }
 
 type bC struct {
 	name   string
@@ -88,6 +103,16 @@ func (t *bT) text() string {
 		return "Coins"
 	case "addr":
 		return "MsgAddress"
+	case "addrint":
+		return "MsgAddressInt"
+	case "nat32":
+		return "#"
+	case "true":
+		return "True"
+	case "cc":
+		return "CurrencyCollection"
+	case "anon":
+		return "[ " + fieldsText(t.fields) + " ]"
 	case "cell":
 		return "Cell"
 	case "refcell":
@@ -115,7 +140,14 @@ func (t *bT) text() string {
 func fieldsText(fs []bF) string {
 	var parts []string
 	for _, f := range fs {
-		parts = append(parts, f.name+":"+f.t.text())
+		switch {
+		case f.implicit != "":
+			parts = append(parts, f.implicit)
+		case f.unnamed:
+			parts = append(parts, f.t.text())
+		default:
+			parts = append(parts, f.name+":"+f.t.text())
+		}
 	}
 	return strings.Join(parts, " ")
 }
@@ -213,8 +245,16 @@ func (s *tlbSchema) specOf(t *bT) bSpec {
 		return spec1("SVar", t.n)
 	case "coins":
 		return spec1("SVar", 16)
-	case "addr":
+	case "addr", "addrint":
 		return spec1("SAddr")
+	case "nat32":
+		return spec1("SUint", 32)
+	case "true":
+		return specSeq(nil)
+	case "cc": // currencies$_ grams:Grams other:ExtraCurrencyCollection; extra_currencies$_ dict:(HashmapE 32 (VarUInteger 32))
+		return specSeq([]bSpec{spec1("SVar", 16), specSeq([]bSpec{{"SDictE 32", sx.L(sx.A("dicte"), sx.Nat(32))}})})
+	case "anon":
+		return s.specFields(t.fields)
 	case "cell":
 		return spec1("SAny")
 	case "refcell":
@@ -242,7 +282,9 @@ func (s *tlbSchema) specOf(t *bT) bSpec {
 func (s *tlbSchema) specFields(fs []bF) bSpec {
 	var items []bSpec
 	for _, f := range fs {
-		items = append(items, s.specOf(f.t))
+		if f.t != nil {
+			items = append(items, s.specOf(f.t))
+		}
 	}
 	return specSeq(items)
 }
@@ -251,11 +293,13 @@ func (s *tlbSchema) specDecl(d *bD) bSpec {
 	if len(d.ctors) == 1 {
 		c := &d.ctors[0]
 		var items []bSpec
-		if c.prefix != "" && !d.msg {
+		if c.prefix != "" && c.prefix != "#_" && c.prefix != "$_" && !d.msg {
 			items = append(items, bSpec{fmt.Sprintf("STag %d %d%%N", c.tagLen, c.tagVal), sx.L(sx.A("tag"), sx.Nat(c.tagLen), sx.N(c.tagVal))})
 		}
 		for _, f := range c.fields {
-			items = append(items, s.specOf(f.t))
+			if f.t != nil {
+				items = append(items, s.specOf(f.t))
+			}
 		}
 		return specSeq(items)
 	}
@@ -288,8 +332,16 @@ func (s *tlbSchema) sizeOf(t *bT) bSize {
 		return bSize{w + 8*(t.n-1), 0}
 	case "coins":
 		return bSize{124, 0}
-	case "addr":
+	case "addr", "addrint":
 		return bSize{600, 0}
+	case "nat32":
+		return bSize{32, 0}
+	case "true":
+		return bSize{0, 0}
+	case "cc":
+		return bSize{125, 1}
+	case "anon":
+		return s.sizeFields(t.fields)
 	case "cell":
 		return bSize{40, 2}
 	case "refcell", "ref", "refanon":
@@ -321,6 +373,9 @@ func maxInt(a, b int) int {
 func (s *tlbSchema) sizeFields(fs []bF) bSize {
 	var z bSize
 	for _, f := range fs {
+		if f.t == nil {
+			continue
+		}
 		x := s.sizeOf(f.t)
 		z.bits += x.bits
 		z.refs += x.refs
@@ -390,6 +445,16 @@ func (g *tlbGen) plain(depth int) *bT {
 		case k == 6:
 			return &bT{k: "coins", n: g.r.Intn(2)}
 		case k == 7:
+			switch g.r.Intn(8) {
+			case 0:
+				return &bT{k: "addrint"}
+			case 1:
+				return &bT{k: "nat32"}
+			case 2:
+				return &bT{k: "cc"}
+			case 3:
+				return &bT{k: "true"}
+			}
 			return &bT{k: "addr"}
 		case k == 8:
 			if g.r.Bool() {
@@ -452,10 +517,13 @@ func (g *tlbGen) fieldTy(last bool) *bT {
 			var fs []bF
 			used := map[string]bool{}
 			for i := 0; i < n; i++ {
-				fs = append(fs, bF{g.fieldName(used), g.fieldTy(i == n-1)})
+				fs = append(fs, nf(g.fieldName(used), g.fieldTy(i == n-1)))
 			}
 			if z := g.s.sizeFields(fs); z.bits <= 1023 && z.refs <= 4 {
-				return &bT{k: "refanon", fields: fs}
+				if g.r.Chance(20) && z.bits <= 200 && z.refs <= 1 {
+					return &bT{k: "anon", fields: g.decorate(fs, used)} // name:[ ... ] inline
+				}
+				return &bT{k: "refanon", fields: g.decorate(fs, used)}
 			}
 		case k == 5:
 			switch g.r.Intn(3) {
@@ -517,7 +585,7 @@ func (g *tlbGen) ctorFields(tagLen, max int) []bF {
 		if g.r.Chance(5) {
 			name = "_"
 		}
-		fs = append(fs, bF{name, t})
+		fs = append(fs, nf(name, t))
 	}
 	// a tail Cell must really be last
 	for i := 0; i+1 < len(fs); i++ {
@@ -525,7 +593,44 @@ func (g *tlbGen) ctorFields(tagLen, max int) []bF {
 			fs[i].t = &bT{k: "bool"}
 		}
 	}
-	return fs
+	return g.decorate(fs, used)
+}
+
+// decorate turns some entries of a field list into the unnamed forms the grammar
+// accepts and inserts implicit fields.  Go names stay distinct: an unnamed
+// reference becomes Field<i>, an unnamed paren form Value (at most one), an
+// unnamed declared type is named like the type (at most one per type).
+func (g *tlbGen) decorate(fs []bF, used map[string]bool) []bF {
+	var out []bF
+	for _, f := range fs {
+		if g.r.Chance(8) {
+			out = append(out, bF{implicit: []string{"{n:#}", "{X:Type}", "{m:#}"}[g.r.Intn(3)]})
+		}
+		if f.name != "_" && g.r.Chance(30) {
+			switch f.t.k {
+			case "ref", "refanon", "refcell":
+				f.unnamed = true
+			case "named":
+				if k := strings.ToLower(f.t.name); !used[k] {
+					used[k] = true
+					f.unnamed = true
+				}
+			case "nn", "var", "either", "eitherref", "dict":
+				if f.t.k == "eitherref" && f.t.a.k == "cell" {
+					break
+				}
+				if !used["value"] {
+					used["value"] = true
+					f.unnamed = true
+				}
+			}
+		}
+		out = append(out, f)
+		if f.t != nil && !f.unnamed && (f.t.k == "uint" || f.t.k == "nn") && f.t.n <= 32 && f.name != "_" && g.r.Chance(6) {
+			out = append(out, bF{implicit: fmt.Sprintf("{ %s <= %d }", f.name, 1<<uint(f.t.n)-1)})
+		}
+	}
+	return out
 }
 
 func (g *tlbGen) typeName() string {
@@ -567,6 +672,9 @@ func (g *tlbGen) addDecl() {
 		case 2:
 			l := 4 * (1 + g.r.Intn(4))
 			setTag(&c, true, l, g.r.U64()&(1<<uint(l)-1))
+		}
+		if c.prefix == "" && g.r.Chance(30) {
+			c.prefix = []string{"#_", "$_"}[g.r.Intn(2)] // the explicit empty prefix
 		}
 		if g.r.Chance(15) {
 			c.name = "_"
@@ -624,8 +732,8 @@ func (g *tlbGen) addDecl() {
 		}
 	}
 	for i := range d.ctors {
-		if fs := d.ctors[i].fields; len(fs) > 0 {
-			if t := fs[len(fs)-1].t; t.k == "cell" || (t.k == "eitherref" && t.a.k == "cell") {
+		for _, f := range d.ctors[i].fields {
+			if t := f.t; t != nil && (t.k == "cell" || (t.k == "eitherref" && t.a.k == "cell")) {
 				d.tail = true
 			}
 		}
@@ -676,25 +784,29 @@ func genTlbExplore(r *prng.R, size int) *tlbSchema {
 		exp        *bD
 	}
 	cases := []ecase{
-		{"either-with-unrelated-ref", "exp_a$1 v:(Either uint8 ^uint16) = ExpType;", one(bF{"v", &bT{k: "either", a: u(8), b: &bT{k: "ref", a: u(16)}}})},
-		{"maybe-inside-either", "exp_a$1 v:(Either (Maybe uint8) uint16) = ExpType;", one(bF{"v", &bT{k: "either", a: &bT{k: "maybe", a: u(8)}, b: u(16)}})},
-		{"maybe-inside-ref", "exp_a$1 v:^(Maybe uint8) = ExpType;", one(bF{"v", &bT{k: "ref", a: &bT{k: "maybe", a: u(8)}}})},
+		{"either-with-unrelated-ref", "exp_a$1 v:(Either uint8 ^uint16) = ExpType;", one(nf("v", &bT{k: "either", a: u(8), b: &bT{k: "ref", a: u(16)}}))},
+		{"maybe-inside-either", "exp_a$1 v:(Either (Maybe uint8) uint16) = ExpType;", one(nf("v", &bT{k: "either", a: &bT{k: "maybe", a: u(8)}, b: u(16)}))},
+		{"maybe-inside-ref", "exp_a$1 v:^(Maybe uint8) = ExpType;", one(nf("v", &bT{k: "ref", a: &bT{k: "maybe", a: u(8)}}))},
 		{"maybe-of-maybe", "exp_a$1 v:(Maybe (Maybe uint8)) = ExpType;", nil},
 		{"lower-case-type-name", "exp_a$1 v:uint8 = exp_type;\nexp_b$0 w:exp_type = ExpType;", nil},
 		{"underscore-in-type-name", "exp_a$1 v:uint8 = Exp_Inner;\nexp_b$0 w:Exp_Inner = ExpType;", nil},
 		{"width-above-64", "exp_a$1 v:(## 65) = ExpType;", nil},
 		{"bits-size-not-generated", "exp_a$1 v:bits100 = ExpType;", nil},
-		{"implicit-field", "exp_a$1 {n:#} v:(## 8) = ExpType;", one(bF{"v", &bT{k: "nn", n: 8}})},
+		{"implicit-field", "exp_a$1 {n:#} v:(## 8) = ExpType;", one(nf("v", &bT{k: "nn", n: 8}))},
 		{"parametrised-combinator", "exp_a$1 v:uint8 = ExpType 5;\nexp_b$0 w:(ExpType 5) = ExpOuter;", nil},
 		{"anonymous-constructors-in-sum", "_$0 v:uint8 = ExpType;\n_$1 w:uint16 = ExpType;", nil},
 		{"empty-tag-in-sum", "exp_a#_ v:uint8 = ExpType;\nexp_b$1 w:uint16 = ExpType;", nil},
 		{"recursive-type", "exp_a$0 = ExpType;\nexp_b$1 v:uint8 next:^ExpType = ExpType;", nil},
 		{"late-declaration", "exp_a$1 v:ExpLater = ExpType;\nexp_l$0 w:uint8 = ExpLater;", nil},
-		{"tail-cell-not-last", "exp_a$1 c:Cell v:uint8 = ExpType;", one(bF{"c", &bT{k: "cell"}}, bF{"v", u(8)})},
+		{"tail-cell-not-last", "exp_a$1 c:Cell v:uint8 = ExpType;", one(nf("c", &bT{k: "cell"}), nf("v", u(8)))},
 		{"hashmap-non-e", "exp_a$1 d:(Hashmap 8 uint16) = ExpType;", nil},
 		{"snake-data", "exp_a$1 d:SnakeData = ExpType;", nil},
 		{"colliding-field-names", "exp_a$1 a_b:uint8 aB:uint8 = ExpType;", nil},
-		{"maybe-ref-of-either", "exp_a$1 v:(Maybe ^(Either uint8 uint16)) = ExpType;", one(bF{"v", &bT{k: "mayberef", a: &bT{k: "either", a: u(8), b: u(16)}}})},
+		{"maybe-ref-of-either", "exp_a$1 v:(Maybe ^(Either uint8 uint16)) = ExpType;", one(nf("v", &bT{k: "mayberef", a: &bT{k: "either", a: u(8), b: u(16)}}))},
+		{"unnamed-paren-maybe", "exp_a$1 (Maybe uint8) = ExpType;", one(bF{t: &bT{k: "maybe", a: u(8)}, unnamed: true})},
+		{"optional-field-expression", "exp_a$1 flags:# v:flags.0?uint8 = ExpType;", nil},
+		{"limited-nat", "exp_a$1 v:(#<= 5) = ExpType;", nil},
+		{"bare-builtin-type-name", "exp_a$1 uint8 = ExpType;", nil},
 		{"hashmape-of-maybe", "exp_a$1 v:(HashmapE 8 (Maybe uint8)) = ExpType;", nil},
 	}
 	c := cases[r.Intn(len(cases))]
@@ -733,9 +845,58 @@ func genTlbPrims() *tlbSchema {
 		if bits+z.bits > 1023 {
 			flush()
 		}
-		cur = append(cur, bF{fmt.Sprintf("f%d", i), t})
+		cur = append(cur, nf(fmt.Sprintf("f%d", i), t))
 		bits += z.bits
 	}
 	flush()
+	return s
+}
+
+// genTlbForms: every form of field definition tlb/parser's grammar accepts
+// (lexer.go: FieldDefinition = Implicit | NamedField | paren expression | CellRef
+// | TypeRef; TypeExpression = paren | [ ... ] | ^ | builtin | number | name), once
+// per run, inside the supported subset: named and "_" fields, unnamed ^T and
+// ^[ ... ] (the dedust.xml form), nested anonymous references with unnamed
+// entries inside, an unnamed paren expression, an unnamed declared type, an
+// inline name:[ ... ], implicit {n:#} {X:Type} and a constraint, the builtin #,
+// True, MsgAddressInt, CurrencyCollection, the explicit empty prefixes #_ and $_,
+// unnamed entries inside the constructors of a union.
+func genTlbForms() *tlbSchema {
+	s := &tlbSchema{}
+	u := func(n int) *bT { return &bT{k: "uint", n: n} }
+	un := func(t *bT) bF { return bF{t: t, unnamed: true} }
+	inner := &bT{k: "named", name: "FormInner"}
+	s.decls = append(s.decls, &bD{name: "FormInner", ctors: []bC{{name: "_", fields: []bF{nf("a", u(8)), nf("b", u(16))}}}})
+	deep := &bT{k: "refanon", fields: []bF{
+		nf("x", u(8)),
+		un(&bT{k: "refanon", fields: []bF{nf("y", u(24)), un(&bT{k: "ref", a: inner}), nf("z", &bT{k: "refanon", fields: []bF{nf("w", &bT{k: "int", n: 9})}})}}),
+		un(&bT{k: "var", n: 7})}}
+	a := bC{name: "forms_a", fields: []bF{
+		{implicit: "{n:#}"}, {implicit: "{X:Type}"},
+		nf("a", u(8)), {implicit: "{ a <= 255 }"},
+		un(&bT{k: "ref", a: inner}),
+		un(&bT{k: "refanon", fields: []bF{nf("b", u(16)), nf("c", u(32))}}),
+		un(inner),
+		un(&bT{k: "nn", n: 5}),
+		nf("_", u(7)),
+		nf("n2", &bT{k: "nat32"}),
+		nf("inl", &bT{k: "anon", fields: []bF{nf("p", u(3)), nf("q", &bT{k: "bool"})}}),
+		un(deep),
+		nf("t", &bT{k: "true"}),
+		nf("cc", &bT{k: "cc"}),
+		nf("src", &bT{k: "addrint"})}}
+	setTag(&a, true, 32, 0xc0ffee01)
+	s.decls = append(s.decls, &bD{name: "FormsA", ctors: []bC{a}})
+	b0 := bC{name: "fa", fields: []bF{un(&bT{k: "ref", a: inner})}}
+	setTag(&b0, false, 1, 0)
+	b1 := bC{name: "fb", fields: []bF{un(&bT{k: "eitherref", a: u(8)}), un(inner), un(&bT{k: "refcell"})}}
+	setTag(&b1, false, 1, 1)
+	s.decls = append(s.decls, &bD{name: "FormsB", ctors: []bC{b0, b1}})
+	s.decls = append(s.decls, &bD{name: "FormsC", ctors: []bC{{name: "fc", prefix: "#_", fields: []bF{nf("v", u(8)), un(&bT{k: "dict", n: 16, a: &bT{k: "ref", a: inner}})}}}})
+	s.decls = append(s.decls, &bD{name: "FormsD", ctors: []bC{{name: "fd", prefix: "$_", fields: []bF{un(&bT{k: "either", a: u(8), b: inner}), nf("w", &bT{k: "mayberef", a: inner})}}}})
+	// a message body (generated alone, skipMagic) with the dedust shape
+	m := bC{name: "formsMsg", fields: []bF{nf("query_id", u(64)), un(&bT{k: "refanon", fields: []bF{nf("x", &bT{k: "coins"}), nf("y", &bT{k: "addr"})}}), nf("p", &bT{k: "refanon", fields: []bF{nf("k", u(1))}})}}
+	setTag(&m, true, 32, 0x40e108d6)
+	s.decls = append(s.decls, &bD{name: "FormsMsg", msg: true, goName: "FormsMsgBody", ctors: []bC{m}})
 	return s
 }
